@@ -363,12 +363,14 @@ class Pool:
                 'base': []}
 
 
-def processed_steps(pool: Pool, op: str, di: int, started: int, raised: bool) -> list:
+def processed_steps(pool: Pool, op: str, di: int, started: int, raised: bool, stop_at: int = 0) -> list:
     """the steps of document di a call has processed, given how many elements were started"""
     steps, starts = pool.steps(di)
     if op == 'encode':
         return []
     nel = len(starts) - 1
+    if op == 'stop' and started < stop_at:
+        return steps                          # the hook never fired
     if op == 'stop' and started <= nel and started >= 1:
         cut = starts[started - 1]             # the hook raised before the xsi:type block of that element
         return [s for s in steps[:cut] if s[0] == 'x']
@@ -430,7 +432,7 @@ def run_history(ctx: Ctx, pi: int, pool: Pool, hist: list, drv: Optional[Driver]
         ctx.count('op:' + op)
         ctx.count('result:' + got[0] + (':invalid' if invalid and got[0] != 'raised' else ''))
         doc_steps = pool.steps(di)[0]
-        done = processed_steps(pool, op, di, cnt[0] if cnt else 0, raised)
+        done = processed_steps(pool, op, di, cnt[0] if cnt else 0, raised, stop_at)
         obs = pool.observe(shared)
         differs = got != want
         if differs:
@@ -532,9 +534,11 @@ def run(ctx: Ctx, driver_ok: bool) -> None:
 
 def search(ctx: Ctx) -> None:
     pools = [Pool(*p) for p in POOLS]
+    d = Driver('drv_c10')
+    drv = d if d.path.exists() else None      # the listed finding is recognised through the model's prediction
     for i in range(ctx.pick(300, 2000)):
         pi = ctx.rng.randrange(len(pools))
-        run_history(ctx, pi, pools[pi], random_history(ctx.rng, pools[pi], 20), None, 'search')
+        run_history(ctx, pi, pools[pi], random_history(ctx.rng, pools[pi], 20), drv, 'search')
         if ctx.failures or ctx.time_left() < 60:
             break
 
